@@ -190,9 +190,13 @@ def unescape(name):
     name = decoder(name.encode())[0]
     return name
 
-_splitRe = re.compile(r'(?<!\\)\.')
+_splitRe = re.compile(r'(?<!\\)((?:\\\\)*)\.')
 def split(name):
-    return list(map(unescape, _splitRe.split(name)))
+    # A dot preceded by an even number of backslashes is a separator: those
+    # are escaped backslashes ending the name, and are captured by _splitRe.
+    parts = _splitRe.split(name)
+    names = [x + y for (x, y) in zip(parts[::2], parts[1::2] + [''])]
+    return list(map(unescape, names))
 
 def join(names):
     return '.'.join(map(escape, names))
